@@ -78,6 +78,7 @@ def plan(tier, seed):
         for i in range(8):
             shards.append({"kind": "random", "configs": cfgs[i::8], "n_per": 150, "seed": seed * 31 + i})
     shards.append({"kind": "stub", "seed": seed, "reps": 3 if tier == "quick" else 40})
+    shards.append({"kind": "window"})
     return shards
 
 
@@ -241,9 +242,10 @@ def run_schedule(cfg, chooser: Chooser):
         for n, t in tasks.items():
             if n in pending:
                 outcome[n] = "stranded"
-        if not pending and outcome.get("c") == "done":
+        if outcome.get("c") == "done":
             # "every FUTURE receive / iteration terminates and every later send raises": late-comers on the closed channel,
-            # after whatever way the earlier receivers ended (flush sentinel, done() check, cancellation)
+            # after whatever way the earlier receivers ended (flush sentinel, done() check, cancellation); tasks that were
+            # still pending (a sender waiting for room, a stranded receiver) have been cancelled above
             async def late():
                 for kind in ("anext", "receive", "send", "send_from_async", "send_from_list", "anext", "receive"):
                     for _ in range(6):
@@ -344,18 +346,20 @@ def check_history(cfg, run) -> List[tuple]:
         elif kind == "call" and op in ("cancel", "timeout"):
             disturbed_at = t
     # O1
-    seen = {}
+    seen, seen_all = {}, {}
     for t, who, item in recv:
         if item not in sent_call:
             out.append(("O1", "invented-item", f"{who} received {item} which was never sent"))
-        if item in seen:
-            out.append(("O1", "duplicate-delivery", f"{item} received by {seen[item]} and {who}"))
-        seen[item] = who
+        if item in seen_all:
+            out.append(("O1", "duplicate-delivery", f"{item} received by {seen_all[item]} and {who}"))
+        seen_all[item] = who
+        if who != "r_late":
+            seen[item] = who  # O2 is about the receivers of the workload; what a late-comer still finds is O2b's business
     # which receivers kept receiving until done
     outcome = run["outcome"]
     receivers = [n for n in outcome if n.startswith("r")]
     disturbed = "r0" if cfg["disturb"] else None
-    keepers = [r for r in receivers if r != disturbed or outcome.get(r) == "done"]
+    keepers = [r for r in receivers if r != "r_late" and (r != disturbed or outcome.get(r) == "done")]
     # O2
     if close_call is not None and keepers:
         for item, tr in sent_ret.items():
@@ -377,6 +381,12 @@ def check_history(cfg, run) -> List[tuple]:
                     if open_at_tr and not got_after and surfaced is not None and surfaced > tr:
                         kind = "item-lost-woken-receiver-was-disturbed"
                 out.append(("O2", kind, f"send of {item} returned at {tr} before close() at {close_call} but it was never received"))
+    # O2b: whatever happened to the receivers of the workload, an item whose send returned before close() must still be
+    # there for a receiver that arrives later and drains the closed channel (it may be left over, never gone for good)
+    if close_call is not None and run["outcome"].get("r_late") == "done":
+        for item, tr in sent_ret.items():
+            if tr < close_call and item not in seen_all:
+                out.append(("O2", "item-lost-for-good", f"send of {item} returned at {tr} before close() at {close_call}; no receiver got it and a late-comer draining the closed channel did not find it either"))
     # O3
     last = {}
     for t, who, item in recv:
@@ -568,8 +578,266 @@ def run_stub_shard(shard) -> Result:
     return res
 
 
+# ---------------------------------------------------------------------------
+# directed "window" scenarios: everything between a wake-up and the woken task running happens in ONE uninterrupted
+# step of the driving coroutine (send / close / a second receiver arriving or a done() poll / cancel or timeout of the
+# woken receiver), which the gate-based director reaches only through rare batch choices.  The obligations here are the
+# "for good" ones: by the time a late-comer has drained the closed channel, every item whose send returned before close()
+# was received exactly once by SOMEBODY, nothing was invented, per-sender order holds, everybody terminated and later
+# sends are refused.  (Whether the receivers of the original workload got the item is O2 / KF19's business.)
+
+def window_scenarios():
+    out = []
+    for buf in (0, 1, 2):
+        for mode in ("receive", "iter"):
+            for blocked in (1, 2):
+                for order in ("send,close", "send,send,close", "close", "close,send", "send,close,send"):
+                    if order == "send,send,close" and buf == 1:
+                        continue  # the second send would block inside the window by construction
+                    for probe in ("none", "done", "receive", "anext"):
+                        for disturb in (None, "cancel", "timeout"):
+                            for when in ("before-probe", "after-probe"):
+                                if (probe == "none" or disturb is None) and when == "after-probe":
+                                    continue
+                                out.append({"buf": buf, "mode": mode, "blocked": blocked, "order": order, "probe": probe,
+                                            "disturb": disturb, "when": when})
+    return out
+
+
+def run_window(sc):
+    from betterproto.grpc.util.async_channel import AsyncChannel, ChannelClosed, ChannelDone
+
+    ev: List[tuple] = []
+    outcome: Dict[str, str] = {}
+    loop_errors: List[str] = []
+
+    def log(*e):
+        ev.append((len(ev),) + e)
+
+    async def main():
+        loop = asyncio.get_running_loop()
+        loop.set_exception_handler(lambda l, ctx: loop_errors.append(str(ctx.get("message")) + ":" + repr(ctx.get("exception"))))
+        ch = AsyncChannel(buffer_limit=sc["buf"])
+        cms = {}
+
+        async def one(who, kind, it=None):
+            """one receive / anext; returns False when the receiver is finished"""
+            log("call", who, kind)
+            try:
+                x = await (ch.receive() if kind == "receive" else it.__anext__())
+            except ChannelDone:
+                log("ret", who, kind, "ChannelDone")
+                return False
+            except StopAsyncIteration:
+                log("ret", who, kind, "StopAsyncIteration")
+                return False
+            log("ret", who, kind, x)
+            return x is not None
+
+        async def receiver(who, mode, with_timeout):
+            try:
+                async def body():
+                    it = ch.__aiter__()
+                    while await one(who, "receive" if mode == "receive" else "anext", it):
+                        pass
+                if with_timeout:
+                    async with asyncio.timeout(None) as cm:
+                        cms[who] = cm
+                        await body()
+                else:
+                    await body()
+                outcome[who] = "done"
+            except asyncio.CancelledError:
+                outcome[who] = "cancelled"
+                log("ret", who, "exc", "CancelledError")
+                raise
+            except TimeoutError:
+                outcome[who] = "timeout"
+                log("ret", who, "exc", "TimeoutError")
+            except BaseException as e:
+                outcome[who] = "error:" + type(e).__name__
+                log("ret", who, "exc", type(e).__name__, str(e)[:80])
+
+        tasks = {}
+        for j in range(sc["blocked"]):
+            who = f"r{j}"
+            mode = sc["mode"] if j == 0 else ("iter" if sc["mode"] == "receive" else "receive")
+            outcome[who] = "stranded"
+            tasks[who] = loop.create_task(receiver(who, mode, sc["disturb"] == "timeout" and j == 0))
+        for _ in range(4):
+            await asyncio.sleep(0)  # everybody is blocked in its first receive now
+
+        def disturb():
+            if sc["disturb"] == "cancel":
+                log("call", "x", "cancel", "r0")
+                tasks["r0"].cancel()
+            elif sc["disturb"] == "timeout":
+                log("call", "x", "timeout", "r0")
+                cms["r0"].reschedule(loop.time() - 1)
+
+        # ---- the window: no suspension point below unless a put has to wait (excluded by construction)
+        k = 0
+        for op in sc["order"].split(","):
+            if op == "send":
+                item = Item((0, k))
+                k += 1
+                log("call", "s0", "send", tuple(item))
+                co = ch.send(item)
+                try:
+                    co.send(None)
+                    log("ret", "s0", "send", "would-block", tuple(item))  # not expected by construction
+                    co.close()
+                except StopIteration:
+                    log("ret", "s0", "send", "ok", tuple(item))
+                except ChannelClosed:
+                    log("ret", "s0", "send", "ChannelClosed", tuple(item))
+            else:
+                log("call", "c", "close")
+                ch.close()
+                log("ret", "c", "close")
+        if sc["when"] == "before-probe":
+            disturb()
+        if sc["probe"] == "done":
+            log("probe", "p", "done", bool(ch.done()))
+        elif sc["probe"] in ("receive", "anext"):
+            # a second receiver arriving inside the window, driven by hand: one step of its coroutine; if it would have to
+            # wait it is abandoned at once (= a receiver cancelled while blocked)
+            log("call", "p", sc["probe"])
+            co = ch.receive() if sc["probe"] == "receive" else ch.__aiter__().__anext__()
+            try:
+                co.send(None)
+                log("ret", "p", sc["probe"], "would-block")
+                co.close()
+            except StopIteration as si:
+                log("ret", "p", sc["probe"], si.value)
+            except ChannelDone:
+                log("ret", "p", sc["probe"], "ChannelDone")
+            except StopAsyncIteration:
+                log("ret", "p", sc["probe"], "StopAsyncIteration")
+        if sc["when"] == "after-probe":
+            disturb()
+        # ---- end of the window
+        for _ in range(12):
+            await asyncio.sleep(0)
+        for who, t in tasks.items():
+            if not t.done():
+                outcome[who] = "stranded"
+                t.cancel()
+        await asyncio.gather(*tasks.values(), return_exceptions=True)
+        if "close" in sc["order"]:
+            async def late():
+                it = ch.__aiter__()
+                for kind in ("receive", "anext", "receive"):
+                    while await one("r_late", kind, it):
+                        pass
+                log("call", "s9", "send", (9, 0))
+                try:
+                    await ch.send(Item((9, 0)))
+                    log("ret", "s9", "send", "ok", (9, 0))
+                except ChannelClosed:
+                    log("ret", "s9", "send", "ChannelClosed", (9, 0))
+                outcome["r_late"] = "done"
+
+            outcome["r_late"] = "stranded"
+            lt = loop.create_task(late())
+            for _ in range(40):
+                if lt.done():
+                    break
+                await asyncio.sleep(0)
+            if not lt.done():
+                lt.cancel()
+                await asyncio.gather(lt, return_exceptions=True)
+            elif lt.exception() is not None:
+                outcome["r_late"] = "error:" + type(lt.exception()).__name__
+
+    hang = False
+    try:
+        asyncio.run(asyncio.wait_for(main(), timeout=20))
+    except asyncio.TimeoutError:
+        hang = True
+    return {"events": ev, "outcome": outcome, "loop_errors": loop_errors, "hang": hang}
+
+
+def check_window(sc, run) -> List[tuple]:
+    if run["hang"]:
+        return [("watchdog", "hang", "window scenario did not finish")]
+    ev, outcome, out = run["events"], run["outcome"], []
+    closed_at = next((e[0] for e in ev if e[1] == "call" and e[3] == "close"), None)
+    sent_ok = {tuple(e[5]): e[0] for e in ev if e[1] == "ret" and e[3] == "send" and e[4] == "ok"}
+    got = [(e[0], e[2], tuple(e[4])) for e in ev if e[1] == "ret" and e[3] in ("receive", "anext") and isinstance(e[4], tuple)]
+    seen = {}
+    for t, who, item in got:
+        if item not in sent_ok:
+            out.append(("W1", "invented-item", f"{who} received {item}"))
+        if item in seen:
+            out.append(("W1", "duplicate-delivery", f"{item} received by {seen[item]} and {who}"))
+        seen[item] = who
+    for e in ev:
+        if e[1] == "ret" and e[3] == "send" and e[4] == "would-block":
+            out.append(("harness", "send-would-block", str(e)))
+    if closed_at is not None:
+        for item, t in sent_ok.items():
+            if t < closed_at and item not in seen and outcome.get("r_late") == "done":
+                out.append(("W2", "item-lost-for-good", f"send of {item} returned before close() but nobody ever received it, a late-comer included"))
+            if t > closed_at:
+                out.append(("W5", "send-after-close-accepted", f"send of {item} after close() returned ok"))
+        for who, oc in outcome.items():
+            if who == "r0" and sc["disturb"] and oc in ("cancelled", "timeout"):
+                continue
+            if oc != "done":
+                out.append(("W4", f"receiver-{oc}", f"{who} after close(): {oc}"))
+    last = -1
+    for t, who, item in got:
+        if item[0] == 0:
+            if item[1] < last:
+                out.append(("W3", "order-violated", f"{item} after (0, {last})"))
+            last = max(last, item[1])
+    if sc["disturb"]:
+        want = "cancelled" if sc["disturb"] == "cancel" else "timeout"
+        if outcome.get("r0") not in (want, "done"):
+            out.append(("W6", f"{sc['disturb']}-surfaced-as-{outcome.get('r0')}", f"r0 ended as {outcome.get('r0')}"))
+    for m in run["loop_errors"]:
+        out.append(("loop", "unretrieved-exception", m[:200]))
+    return out
+
+
+def run_window_shard(shard) -> Result:
+    res = Result()
+    try:
+        scs = window_scenarios()
+        hashes = set()
+        for sc in scs:
+            run = run_window(sc)
+            res.evaluations += 1
+            res.counters["schedules"] += 1
+            res.counters["window_scenarios"] += 1
+            h = history_hash(run)
+            if h not in hashes:
+                hashes.add(h)
+                res.distinct.add("window:" + h)
+                res.counters["distinct_histories"] += 1
+            for ob, kind, detail in check_window(sc, run):
+                if ob == "watchdog":
+                    res.inconclusive.append(f"window {sc}: {detail}")
+                    continue
+                if ob == "harness":
+                    res.inconclusive.append(f"window {sc}: {kind} {detail}")
+                    continue
+                res.violation(ob, [ob, kind, "probe=" + sc["probe"], "disturb=" + str(sc["disturb"]), "buf>0" if sc["buf"] else "unbounded"],
+                              f"window {sc}: {detail}; history: {[e[1:] for e in run['events']][:40]}", {"kind": "window", "sc": sc})
+        if scs:
+            run = run_window(next(s for s in scs if s["probe"] == "receive" and s["disturb"] == "cancel" and s["order"] == "send,close"))
+            res.sample({"window_scenario": "send, close, second receiver, cancel of the woken receiver in one step",
+                        "history": [list(map(str, e[1:])) for e in run["events"]][:40], "outcome": run["outcome"]})
+    except Exception as e:
+        res.inconclusive.append(f"oracle crashed: {type(e).__name__}: {e}\n{traceback.format_exc()[-1500:]}")
+    return res
+
+
 def run_shard(shard) -> Result:
     import betterproto  # noqa: F401  (tree under test on the path)
+    if shard.get("kind") == "window":
+        return run_window_shard(shard)
 
     if shard.get("kind") == "stub":
         return run_stub_shard(shard)
@@ -610,6 +878,11 @@ def replay(w):
 
     if w.get("kind") == "stub":
         return run_stub_shard({"seed": w["seed"], "reps": w["rep"] + 1}).violations
+    if w.get("kind") == "window":
+        res = Result()
+        for ob, kind, detail in check_window(w["sc"], run_window(w["sc"])):
+            res.violation(ob, [ob, kind, "probe=" + w["sc"]["probe"], "disturb=" + str(w["sc"]["disturb"]), "buf>0" if w["sc"]["buf"] else "unbounded"], detail, w)
+        return res.violations
     res = Result()
     ch = Chooser(w["choices"])
     judge(w["cfg"], ch, run_schedule(w["cfg"], ch), res, set())
